@@ -58,6 +58,8 @@ TYPE_SUBST = [
     ('E2-valueset-ctor', r'HashSet::new\(\)', 'VValueSet::new()'),
     ('E2-rowset-ctor', r'FnvHashSet::default\(\)', 'VRowSet::default()'),
     ('E2-peekable-chars', r"Peekable<Chars<'a>>", 'VChars'),
+    ('E2-scope-map', r"HashMap<ColumnScope, HashMap<&'a str, &'a Value>>", "VScopes<'a>"),
+    ('E2-name-map', r"HashMap<&'a str, &'a Value>", "VNameMap<'a>"),
 ]
 
 
